@@ -1722,6 +1722,8 @@ class GroupBy:
         else:
             indexer = slice(None)
             result_index = common_index
+            # chunked codes are local to their chunk: the kernel needs the global ones
+            self._unify_group_key_chunks()
             group_key = self.group_ikey
 
         arg_list = [
@@ -2390,6 +2392,8 @@ class GroupBy:
         max_diff: float | int
             The threshold distance for forming a new sub-group
         """
+        # chunked codes are local to their chunk: the kernel needs the global ones
+        self._unify_group_key_chunks()
         return numba_funcs.group_nearby_members(
             group_key=self.group_ikey,
             values=values,
